@@ -965,3 +965,83 @@ def multi_evidence(rng):
             a.emit(sp, "SLOAD", ("push", rng.getrandbits(256), 32), "EQ", 0, "MSTORE")
         a.emit("STOP")
     return a.assemble(), feats
+
+
+# ------------------------------------------------------------------------------------------- composable fragments
+
+def evidence_branches(rng, slots):
+    """Branch bodies (closures emitting into an Asm) giving each slot several pieces of evidence. Each closure draws
+    from its own private RNG so that emitting it twice gives identical code."""
+    import random
+    kinds = ["dynarray", "mapping", "bool-write", "address-write", "masked-write", "packed-write", "numeric-use",
+             "plain-read", "copy-within"]
+    out = []
+    for s in slots:
+        for k in rng.sample(kinds, rng.randint(1, 3)):
+            seed = rng.getrandbits(32)
+
+            def body(a, s=s, k=k, seed=seed):
+                r = random.Random(seed)
+                sp = s if s else ("push", 0, 1)
+                if k == "dynarray":
+                    a.emit(sp, 0, "MSTORE", 0x20, 0, "SHA3", 4, "CALLDATALOAD", "ADD")
+                    a.emit("SLOAD", 0, "MSTORE") if r.random() < 0.5 else a.emit("CALLVALUE", "SWAP1", "SSTORE")
+                elif k == "mapping":
+                    a.emit("CALLER", 0, "MSTORE", sp, 0x20, "MSTORE", 0x40, 0, "SHA3")
+                    a.emit("SLOAD", 0, "MSTORE") if r.random() < 0.5 else a.emit("CALLVALUE", "SWAP1", "SSTORE")
+                elif k == "bool-write":
+                    a.emit("CALLVALUE", "ISZERO", sp, "SSTORE")
+                elif k == "address-write":
+                    a.emit("CALLER", sp, "SSTORE")
+                elif k == "masked-write":
+                    w = r.choice([8, 16, 32, 64, 128])
+                    a.emit(4, "CALLDATALOAD", ("push", (1 << w) - 1, None), "AND", sp, "SSTORE")
+                elif k == "packed-write":
+                    off, w = r.choice([8, 16, 160]), r.choice([8, 16, 64])
+                    m = (1 << w) - 1
+                    a.emit(sp, "SLOAD", ("push", evm.M256 ^ (m << off), 32), "AND", 4, "CALLDATALOAD", ("push", m, None),
+                           "AND", ("push", 1 << off, None), "MUL", "OR", sp, "SSTORE")
+                elif k == "numeric-use":
+                    a.emit(4, "CALLDATALOAD", sp, "SLOAD", r.choice(["ADD", "MUL", "LT"]), 0, "MSTORE")
+                elif k == "plain-read":
+                    a.emit(sp, "SLOAD", 0, "MSTORE")
+                elif k == "copy-within":
+                    o = r.choice(slots)
+                    a.emit(o if o else ("push", 0, 1), "SLOAD", sp, "SSTORE")
+                a.emit("STOP")
+            out.append(body)
+    return out
+
+
+def dispatcher(branches, shape="chain", salt=0):
+    """A program that dispatches on the calldata selector to each branch body."""
+    a = evm.Asm()
+    n = len(branches)
+    a.emit(0, "CALLDATALOAD", 0xe0, "SHR")
+    if shape == "chain" or n < 3:
+        for i in range(n):
+            a.emit("DUP1", ("push", (0xf0000000 + salt * 0x100 + i) & 0xffffffff, 4), "EQ")
+            a.jumpi("B%d" % i)
+        a.emit("STOP")
+    elif shape == "split":
+        mid = n // 2
+        a.emit("DUP1", ("push", (0xf0000000 + salt * 0x100 + mid) & 0xffffffff, 4), "GT")
+        a.jumpi("LOW")
+        for i in range(mid, n):
+            a.emit("DUP1", ("push", (0xf0000000 + salt * 0x100 + i) & 0xffffffff, 4), "EQ")
+            a.jumpi("B%d" % i)
+        a.emit("STOP")
+        a.label("LOW")
+        for i in range(0, mid):
+            a.emit("DUP1", ("push", (0xf0000000 + salt * 0x100 + i) & 0xffffffff, 4), "EQ")
+            a.jumpi("B%d" % i)
+        a.emit("STOP")
+    else:  # fallthrough: the last branch is the default
+        for i in range(n - 1):
+            a.emit("DUP1", ("push", (0xf0000000 + salt * 0x100 + i) & 0xffffffff, 4), "EQ")
+            a.jumpi("B%d" % i)
+        a.jump("B%d" % (n - 1))
+    for i, body in enumerate(branches):
+        a.label("B%d" % i)
+        body(a)
+    return a.assemble()
